@@ -54,6 +54,18 @@ def run(ctx):
     runner.prove(ctx, MODULE, THEOREMS, FILES)
     g = SchemaGen(ctx.rnd)
     vals = [g.plain_value(ctx.n(3, 4)) for _ in range(ctx.n(150, 1200))]
+    # values in which the very same container object occurs at several positions (non-cyclic sharing)
+    for _ in range(ctx.n(40, 300)):
+        shared = ctx.rnd.choice([[1, 2], {"a": 1}, [], {}, [[0]], {"k": [1]}])
+        shape = ctx.rnd.choice(["ll", "dd", "deep", "mixed"])
+        if shape == "ll":
+            vals.append([shared, shared])
+        elif shape == "dd":
+            vals.append({"home": shared, "work": shared})
+        elif shape == "deep":
+            vals.append([[shared], {"x": [shared]}])
+        else:
+            vals.append({"a": [shared, 1], "b": shared})
     reqs, exp, info = [], [], []
     for v in vals:
         nested = isinstance(v, (list, dict)) and len(v) > 0
